@@ -757,7 +757,7 @@ def replay_metric_choice(wit):
     from harness import C10
     rng = np.random.default_rng(3)
     n = 3
-    sizes = {"x_c": n, "x_l": n, "y_c": n, "y_l": n, "z_c": n, "z_o": n + 1, "t": 2}
+    sizes = {"x_c": n, "x_l": n, "x_o": n + 1, "y_c": n, "y_l": n, "z_c": n, "z_o": n + 1, "t": 2}
     base = xr.Dataset(coords={d: np.arange(k) for d, k in sizes.items()})
     for name, (_, vd) in C10.POOL.items():
         base[name] = (vd, rng.random([sizes[d] for d in vd]) + 0.5)
